@@ -3,6 +3,12 @@ from ..gen import cells as G
 from .C01 import cmp_obs, spec_obs
 
 SPEC = dict(
+    manifest=dict(
+        category='proof',
+        text="Lean proves (Proofs/CellSpec.lean, 750 lines) that for every spec-valid tree with pruned branches of any mask 1..7, library cells, Merkle proofs/updates in any nesting, the model of the constructor succeeds and reports exactly the spec's level mask and per-level hash/depth at every level (loop invariant over calculate_hashes vs. level recursion of the spec); pruning invariance is proved on the spec (Proofs/Prune.lean, when present) and tested through the library. Tie: correspondence library = model = Lean spec = independent Python spec on generated exotic trees, prunings and malformed cells.",
+        level_note='Trusted: Lean kernel, Spec/Cell.lean as the TON rule (cross-checked against an independent Python transcription on every run), Model/Cell.lean as a hand transcription of the code (sampled correspondence), the harness.',
+        technique='Lean 4 refinement proof (hand model) + differential correspondence with the library',
+    ),
     design_ref='DESIGN.md §6 C02',
     rule='trees with pruned branches of all 7 masks, library cells, Merkle proofs/updates nested up to level 3, random pruning sets; '
          'each node compared library vs Lean model vs Lean spec vs Python spec; plus a malformed stream (wrong sizes/tags/ref counts) '
